@@ -91,7 +91,8 @@ class Replayer:
     """Builds the native test binary of the harness package once (against the
     real /repo build, with the same overlays) and runs recorded inputs."""
 
-    def __init__(self, workdir, overlay_json):
+    def __init__(self, workdir, overlay_json, race=False):
+        self.race = race
         self.workdir = workdir
         self.bin = os.path.join(workdir, 'h.test')
         self.built = None
@@ -102,6 +103,8 @@ class Replayer:
         if self.built is not None:
             return self.built
         cmd = ['go', 'test', '-c', '-vet=off', '-o', self.bin]
+        if self.race:
+            cmd.append('-race')
         if self.overlay_json:
             m = json.load(open(self.overlay_json))
             ov = os.path.join(self.workdir, 'go_overlay.json')
@@ -126,6 +129,8 @@ class Replayer:
         except subprocess.TimeoutExpired:
             return 'hang', 'native run did not finish within %ds' % timeout
         out = r.stdout
+        if 'WARNING: DATA RACE' in out or 'race detected during execution' in out:
+            return 'reproduced', 'data race reported by the Go race detector'
         if 'VERIF-REPRODUCED' in out:
             m = re.search(r'VERIF-REPRODUCED: (.*)', out)
             return 'reproduced', m.group(1) if m else ''
@@ -211,7 +216,7 @@ def main():
 
 def do_replay(pid, prop, path, workdir):
     overlay, _ = make_overlays(prop, workdir)
-    rp = Replayer(workdir, overlay)
+    rp = Replayer(workdir, overlay, race=prop.get('race', False))
     status, detail = rp.run(os.path.abspath(path), timeout=60)
     log('replay %s: %s %s' % (path, status, detail))
     if status in ('reproduced', 'hang', 'crash'):
@@ -229,7 +234,7 @@ def do_check(pid, prop, tier, seed, workdir):
         write_evidence(pid, prop, tier, seed, [], [], [], ['engine run failed'], time.time() - t0, 0, broken=True)
         return 2
     findings = load_findings()
-    rp = Replayer(workdir, overlay)
+    rp = Replayer(workdir, overlay, race=prop.get('race', False))
     repdir = os.path.join(ROOT, 'replays', pid)
     shutil.rmtree(repdir, ignore_errors=True)
     os.makedirs(repdir, exist_ok=True)
